@@ -87,6 +87,8 @@ def cp(v, check=False):
         return dict(items)
     if t is set:
         return set([cp(x, check) for x in v])
+    if hasattr(v, '_i') and hasattr(v, 'items'):        # AssocDict (symbolic key texts): copied item by item
+        return t([(cp(k, check), cp(x, check)) for k, x in v.items()])
     if isinstance(v, Unserializable):
         if check:
             raise TypeError('value is not serializable (model)')
